@@ -26,7 +26,7 @@ DEFAULT_PROFILE = dict(
     subscript_whole_array_results=True, raise_=True, nested_calls=True,
     persistent_arrays=True, name_pool="plain", zero_trip=True, negative_consts=True,
     dead_code=True, cond_in_call_args=True, bare_power=True, ne_operator=True,
-    pow_of_pow=True, loop_bound_vars=True, fresh_names=False, lookups=False, complex_vars=False, assign_all_state=False, time_advance=True, force_phases=None, extra_kinds=(), zero_arg_calls=True, builtin_set=None, yield_uvec_only=False, matmul_only=False, yield_call_free=False, minmax_loop_counter=True, builtin_kwargs=True, uvfn_boost=False, kw_reverse=True, triangular=True, recall=True, int_reassign=True, acc_loops=True, guarded_partial=True,
+    pow_of_pow=True, loop_bound_vars=True, fresh_names=False, lookups=False, complex_vars=False, assign_all_state=False, time_advance=True, force_phases=None, extra_kinds=(), zero_arg_calls=True, builtin_set=None, yield_uvec_only=False, matmul_only=False, yield_call_free=False, minmax_loop_counter=True, builtin_kwargs=True, uvfn_boost=False, kw_reverse=True, triangular=True, recall=True, int_reassign=True, acc_loops=True, guarded_partial=True, split_calls=True,
     real_temps=None, uvec_temps=None, arr_temps=None, flag_temps=None, int_temps=None,
 )
 
@@ -750,7 +750,31 @@ class Gen:
         if not self.p["calls"]:
             return []
         uv = self.names_of(UVEC)
-        k = self.choice(["f", "f", "g", "two", "none", "zero"])
+        k = self.choice(["f", "f", "g", "two", "none", "zero", "split"])
+        if k == "split":
+            # two user-type results introduced by one statement
+            if not (uv and self.p["multi_result"] and self.p["uvecs"] and self.p["split_calls"]):
+                return []
+            cands = [n for n in self.UVEC_TEMPS if self.types.get(n, UVEC) == UVEC]
+            if len(cands) < 2:
+                return []
+            n1 = self.choice(cands)
+            n2 = self.choice([c for c in cands if c != n1])
+            src = V(self.choice(uv))
+            self.define(n1, UVEC)
+            self.define(n2, UVEC)
+            self.features.add("split_call")
+            ops = [["call", [n1, n2], "<func>split", [src] if not (self.p["kwargs"] and self.chance(30)) else [],
+                    {} ]]
+            if not ops[0][3]:
+                ops[0][4] = {"y": src}
+            if self.chance(60):
+                # both results consumed by one statement (introduced together, last used together)
+                tgt = self.fresh_or_existing(UVEC, self.UVEC_TEMPS, [n for n in P_UVEC if self.types.get(n) == UVEC])
+                if tgt is not None:
+                    ops.append(["assign", tgt, None, normal(["sum", V(n1), normal(["prod", self.coef(0), V(n2)])]), []])
+                    self.define(tgt, UVEC)
+            return ops
         if k == "zero" and self.p["zero_arg_calls"]:
             name = self.fresh_or_existing(REAL, self.REAL_TEMPS, [n for n in P_REAL if self.types.get(n) == REAL])
             if name is None:
